@@ -572,6 +572,32 @@ def id_memo(prog: Program) -> RuleResult:
                     "instances at the same addresses look recorded - the element is in the field, the relation and all its inferences are missing")
     if n < 3:
         raise AnalysisError("ID-MEMO: fewer than three descriptor methods found")
+    # the same for module-level memos next to the descriptors and relations: a graph node *index* is reused as soon as a swept node's slot is
+    # free again, like an address - what was remembered under it (the role taker of a role that is long gone) is served to the next instance
+    for m in sorted(prog.modules.values(), key=lambda x: x.name):
+        if ".property_descriptor." not in m.name and not m.name.endswith(".property_descriptor"):
+            continue
+        shared = {t.id for st in m.tree.body if isinstance(st, (ast.Assign, ast.AnnAssign)) for t in ([st.target] if isinstance(st, ast.AnnAssign) else st.targets) if isinstance(t, ast.Name)}
+        bad = None
+        for f in [f for f in prog.functions.values() if f.module is m]:
+            keys = set()
+            for x in walk_local(f.node):
+                if isinstance(x, ast.Assign) and len(x.targets) == 1 and isinstance(x.targets[0], ast.Name) and any(
+                        (isinstance(y, ast.Attribute) and y.attr in ("index", "instance_id")) or (isinstance(y, ast.Call) and isinstance(y.func, ast.Name) and y.func.id == "id") for y in ast.walk(x.value)):
+                    keys.add(x.targets[0].id)
+            for x in walk_local(f.node):
+                key = holder = None
+                if isinstance(x, ast.Subscript) and isinstance(x.ctx, ast.Store):
+                    key, holder = x.slice, x.value
+                elif isinstance(x, ast.Call) and isinstance(x.func, ast.Attribute) and x.func.attr in ("add", "setdefault") and x.args:
+                    key, holder = x.args[0], x.func.value
+                if key is None or not (isinstance(holder, ast.Name) and holder.id in shared):
+                    continue
+                if any((isinstance(y, ast.Attribute) and y.attr in ("index", "instance_id")) or (isinstance(y, ast.Call) and isinstance(y.func, ast.Name) and y.func.id == "id") or (isinstance(y, ast.Name) and y.id in keys) for y in ast.walk(key)):
+                    bad = bad or (f, x)
+        r.check(bad is None, f"{m.name.split('.')[-1]}#no-shared-memo-by-index-or-id", site(bad[0], bad[1]) if bad else m.relpath, src(bad[1])[:80] if bad else "", "no module-level collection is keyed by a node index or an id()",
+                f"`{src(bad[1])[:70] if bad else ''}` ({bad[0].short if bad else ''}) remembers something under a graph node index / id(), which the next instance gets once the slot is free: relations "
+                "of a new role are inferred onto the role taker of a role that was collected long ago")
     return r
 
 
